@@ -280,7 +280,9 @@ def rule_stale(report, prog):
             for c in walk_no_nested(n.ast):
                 if isinstance(c, ast.Call) and (norm(c.func).startswith('self.device.') or (isinstance(c.func, ast.Name) and c.func.id.startswith(('sense_', 'listen_')))):
                     drv.append(n)
-        okk = len(clr) == 1 and all(cfg.dominates(clr[0], d) for d in drv) and bool(drv)
+        # (a later `self.target = None` -- the result of a search that found nothing -- is not the clearing; one that dominates every
+        # driver call is)
+        okk = bool(drv) and any(all(cfg.dominates(c_, d) and c_ is not d for d in drv) for c_ in clr)
         report.check(okk, 'C18-R5', key(f.qname, 'captured target cleared before any driver call'), f.loc(),
                      '%s() can call the driver while the target of an earlier sense/listen is still captured' % q)
         # every normal exit inside the locked region lies after the clearing
